@@ -5,6 +5,15 @@ From RW Require Import Base.Bytes Base.BytesFacts Fmt.Codec Fmt.CodecFacts Fmt.F
 From Coq Require Import ZifyN ZifyNat ZifyBool.
 Open Scope N_scope.
 
+Lemma WInvS_intro c w d ss t tw :
+  st_closed w = false -> st_failed w = false ->
+  dk_meta d = Some (persistent w) -> dk_inited d = true -> fresh w d ->
+  st_segs w = ss ++ [t] -> st_tail w = Some tw ->
+  Forall (sealed_ok c d) ss -> tail_ok c d t tw -> linked (ss ++ [t]) ->
+  st_rotate w = (if 0 <? ws_index_start tw then Some (ws_index_start tw) else None) ->
+  WInvS c w d ss t tw.
+Proof. intros. unfold WInvS. tauto. Qed.
+
 (* ------------------------------------------------------------------ *)
 (* linked lists of segments                                             *)
 Lemma linked_tail s r : linked (s :: r) -> linked r.
